@@ -136,11 +136,17 @@ func (c *clause) compileHeadArg(a Term, env *Env) {
 		}
 		c.bytecode = append(c.bytecode, instruction{opcode: opPop})
 	case *partial:
-		prefix := a.Compound.(list)
-		c.bytecode = append(c.bytecode, instruction{opcode: opGetPartial, operand: Integer(len(prefix))})
+		// The known prefix isn't always a list value: append/3 builds it over a string, a cons cell or another partial list.
+		var l int
+		iter := ListIterator{List: a.Compound, Env: env}
+		for iter.Next() {
+			l++
+		}
+		c.bytecode = append(c.bytecode, instruction{opcode: opGetPartial, operand: Integer(l)})
 		c.compileHeadArg(*a.tail, env)
-		for _, arg := range prefix {
-			c.compileHeadArg(arg, env)
+		iter = ListIterator{List: a.Compound, Env: env}
+		for iter.Next() {
+			c.compileHeadArg(iter.Current(), env)
 		}
 		c.bytecode = append(c.bytecode, instruction{opcode: opPop})
 	case Compound:
